@@ -185,7 +185,7 @@ func main() {
 				}
 				continue
 			}
-			if f := findings[prop+" "+key]; f != nil && f.Status == "known" {
+			if f := findings[key]; f != nil && f.Status == "known" {
 				knownHit = append(knownHit, key)
 				fmt.Printf("KNOWN-FINDING: property=%s %s: %s\n", prop, key, f.What)
 				continue
@@ -256,7 +256,7 @@ func loadFindings() map[string]*Finding {
 		os.Exit(2)
 	}
 	for i := range fs {
-		out[fs[i].Property+" "+fs[i].Key] = &fs[i]
+		out[fs[i].Key] = &fs[i] // keyed by harness/assertion: a harness may serve several properties
 	}
 	return out
 }
